@@ -16,7 +16,7 @@ use crate::{Matcher, Utf32Str};
 // P: ASCII prefilter
 // ------------------------------------------------------------------------------------------
 pub fn prefilter_ascii_lemma<const H: usize, const N: usize>() {
-    let sc = sym_config(None);
+    let sc = sym_config_p(Some(false), None);
     let hay: [u8; H] = sym::ascii_arr();
     let needle: [u8; N] = sym_needle_ascii(sc.cfg.ignore_case);
     let only_greedy = sym::bool_();
@@ -139,7 +139,7 @@ fn check_fuzzy_result<T: Copy + PartialEq, const H: usize, const N: usize, const
             let dp = spec::two_matrix_dp(nh, needle, bonus);
             check!(best.is_some() && score as u32 <= best.unwrap_or(0), "C04 optimal score never exceeds the true optimum over all alignments");
             check!(dp.is_some() && score as u32 >= dp.unwrap_or(u32::MAX), "C04 optimal score is never below the naive two-matrix recurrence");
-            cover!(best != dp, "naive recurrence strictly below the true optimum");
+            cover!(best != dp, "INFO naive recurrence strictly below the true optimum");
         }
     }
 }
@@ -147,8 +147,8 @@ fn check_fuzzy_result<T: Copy + PartialEq, const H: usize, const N: usize, const
 // ------------------------------------------------------------------------------------------
 // O: fuzzy_match_optimal on window [S, E), ASCII x ASCII
 // ------------------------------------------------------------------------------------------
-pub fn optimal_ascii<const H: usize, const N: usize, const P: usize>(s: usize, e: usize) {
-    let sc = sym_config(Some(false));
+pub fn optimal_ascii<const H: usize, const N: usize, const P: usize>(s: usize, e: usize, path: Option<bool>) {
+    let sc = sym_config_p(path, Some(false));
     let hay: [u8; H] = sym::ascii_arr();
     let needle: [u8; N] = sym_needle_ascii(sc.cfg.ignore_case);
     let nh = norm_ascii(&hay, sc.cfg.ignore_case);
@@ -193,10 +193,51 @@ pub fn optimal_ascii<const H: usize, const N: usize, const P: usize>(s: usize, e
 }
 
 // ------------------------------------------------------------------------------------------
-// G: fuzzy_match_greedy_ on window [S, G), ASCII x ASCII (G = leftmost greedy end, concrete)
+// G: fuzzy_match_greedy_ on (S, G) - start and leftmost greedy end concrete.
+// The function minimises the start backwards (the new start depends on the content, so the
+// window it hands to calculate_score is symbolic); with INDICES = true that makes CBMC explore
+// Vec growth with a symbolic length and explodes (18 GB at H=4). So: the score-only variant is
+// compared with the scheme evaluated on the alignment the oracle predicts (backward-minimised
+// start, then forward greedy), and the indices variant of the scoring walk is covered by the S
+// lemma below on every concrete window; INDICES is only forwarded by fuzzy_match_greedy_.
 // ------------------------------------------------------------------------------------------
-pub fn greedy_ascii<const H: usize, const N: usize, const P: usize>(s: usize, g: usize) {
-    let sc = sym_config(Some(false));
+/// oracle: the alignment greedy matching reports for window [s, g)
+fn greedy_alignment<T: Copy + PartialEq, const H: usize, const N: usize>(
+    nh: &[T; H],
+    needle: &[T; N],
+    s: usize,
+    g: usize,
+) -> [u32; N] {
+    // backwards from g-1: latest start from which the needle still fits
+    let mut k = N;
+    let mut p = g;
+    let mut start = s;
+    while p > s {
+        p -= 1;
+        if k > 0 && nh[p] == needle[k - 1] {
+            k -= 1;
+            if k == 0 {
+                start = p;
+                break;
+            }
+        }
+    }
+    // forwards from there
+    let mut idx = [0u32; N];
+    let mut k = 0;
+    let mut p = start;
+    while p < g {
+        if k < N && nh[p] == needle[k] {
+            idx[k] = p as u32;
+            k += 1;
+        }
+        p += 1;
+    }
+    idx
+}
+
+pub fn greedy_ascii<const H: usize, const N: usize>(s: usize, g: usize, path: Option<bool>) {
+    let sc = sym_config_p(path, Some(false));
     let hay: [u8; H] = sym::ascii_arr();
     let needle: [u8; N] = sym_needle_ascii(sc.cfg.ignore_case);
     let nh = norm_ascii(&hay, sc.cfg.ignore_case);
@@ -204,21 +245,8 @@ pub fn greedy_ascii<const H: usize, const N: usize, const P: usize>(s: usize, g:
     assume(greedy_end(&nh, &needle, s) == Some(g));
     let bonus = bonus_ascii(&hay, sc.scheme);
     let mut m = sym_matcher(&sc.cfg);
-    let (mut idx, pre) = sym_indices::<P>(N);
     #[cfg(kani)]
-    let r = m.fuzzy_match_greedy_::<true, AsciiChar, AsciiChar>(
-        AsciiChar::cast(&hay),
-        AsciiChar::cast(&needle),
-        s,
-        g,
-        &mut idx,
-    );
-    #[cfg(not(kani))]
-    let r = m.fuzzy_indices_greedy(Utf32Str::Ascii(&hay), Utf32Str::Ascii(&needle), &mut idx);
-    check!(r.is_some(), "C01 greedy matcher accepts every window the prefilter lets through");
-    check_fuzzy_result::<u8, H, N, P>(&nh, &needle, &bonus, r, &idx, &pre, false);
-    #[cfg(kani)]
-    let r2 = m.fuzzy_match_greedy_::<false, AsciiChar, AsciiChar>(
+    let r = m.fuzzy_match_greedy_::<false, AsciiChar, AsciiChar>(
         AsciiChar::cast(&hay),
         AsciiChar::cast(&needle),
         s,
@@ -226,20 +254,37 @@ pub fn greedy_ascii<const H: usize, const N: usize, const P: usize>(s: usize, g:
         &mut Vec::new(),
     );
     #[cfg(not(kani))]
-    let r2 = m.fuzzy_match_greedy(Utf32Str::Ascii(&hay), Utf32Str::Ascii(&needle));
-    check!(r2 == r, "C03 score-only and indices variants return the same value (greedy)");
+    let r = m.fuzzy_match_greedy(Utf32Str::Ascii(&hay), Utf32Str::Ascii(&needle));
+    check!(r.is_some(), "C01 greedy matcher accepts every window the prefilter lets through");
+    let want = greedy_alignment(&nh, &needle, s, g);
+    check!(spec::valid_witness(&nh, &needle, &want), "C02 oracle self-check: predicted greedy alignment is a witness");
+    if let Some(score) = r {
+        check!(score as u32 == spec::score_of(&bonus, &want, N), "C03 greedy score equals the fzf scheme evaluated on the greedy alignment");
+        cover!(want[0] as usize > s, "backward pass moved the start");
+    }
+    // natively (replay) the indices variant is available through the public API: full check
+    #[cfg(not(kani))]
+    {
+        let (mut idx, pre) = sym_indices::<0>(N);
+        let ri = m.fuzzy_indices_greedy(Utf32Str::Ascii(&hay), Utf32Str::Ascii(&needle), &mut idx);
+        check!(ri == r, "C03 score-only and indices variants return the same value (greedy)");
+        check_fuzzy_result::<u8, H, N, 0>(&nh, &needle, &bonus, ri, &idx, &pre, false);
+    }
     std::mem::forget(m);
 }
 
 // ------------------------------------------------------------------------------------------
-// S: calculate_score on [S, S+N) - the arm taken when the window is exactly as long as the needle
+// S: calculate_score on a concrete window [S, E) whose forward greedy match ends exactly at E
+// (the contract under which both callers - the dispatcher for contiguous windows and
+// fuzzy_match_greedy_ after minimising the start - invoke it)
 // ------------------------------------------------------------------------------------------
-pub fn score_exact_window_ascii<const H: usize, const N: usize, const P: usize>(s: usize) {
-    let sc = sym_config(Some(false));
+pub fn score_window_ascii<const H: usize, const N: usize, const P: usize>(s: usize, e: usize, path: Option<bool>) {
+    let sc = sym_config_p(path, Some(false));
     let hay: [u8; H] = sym::ascii_arr();
     let needle: [u8; N] = sym_needle_ascii(sc.cfg.ignore_case);
     let nh = norm_ascii(&hay, sc.cfg.ignore_case);
-    assume(spec::occurs_at(&nh, &needle, s));
+    assume(nh[s] == needle[0]);
+    assume(greedy_end(&nh, &needle, s) == Some(e));
     let bonus = bonus_ascii(&hay, sc.scheme);
     let mut m = sym_matcher(&sc.cfg);
     let (mut idx, pre) = sym_indices::<P>(N);
@@ -247,7 +292,7 @@ pub fn score_exact_window_ascii<const H: usize, const N: usize, const P: usize>(
         AsciiChar::cast(&hay),
         AsciiChar::cast(&needle),
         s,
-        s + N,
+        e,
         &mut idx,
     );
     check_fuzzy_result::<u8, H, N, P>(&nh, &needle, &bonus, Some(r), &idx, &pre, false);
@@ -255,10 +300,10 @@ pub fn score_exact_window_ascii<const H: usize, const N: usize, const P: usize>(
         AsciiChar::cast(&hay),
         AsciiChar::cast(&needle),
         s,
-        s + N,
+        e,
         &mut Vec::new(),
     );
-    check!(r2 == r, "C03 score-only and indices variants return the same value (contiguous window)");
+    check!(r2 == r, "C03 score-only and indices variants return the same value (scoring walk)");
     std::mem::forget(m);
 }
 
